@@ -8,6 +8,7 @@ mod c04;
 mod pwstr;
 mod c05;
 mod c16;
+mod c11;
 
 #[global_allocator]
 static GLOBAL: c04::Counting = c04::Counting;
@@ -34,6 +35,7 @@ fn main() {
         "C10" => pwstr::run_c10(&mut out, tier, seed),
         "C05" => c05::run(&mut out, tier, seed),
         "C16" => c16::run(&mut out, tier, seed),
+        "C11" => c11::run(&mut out, tier, seed),
         _ => { eprintln!("unknown property {}", prop); std::process::exit(2); }
     }
     out.finish(prop, tier, seed);
